@@ -4,7 +4,8 @@
 // read through an access override, the internal structure the model mirrors (slot id of every
 // node, free-list chain, number of blocks, Array allocation flag).
 // Element kinds: int; Obj (owns a heap cell: ASan sees any lifetime error); kv = Obj whose
-// operator< compares value/16 only (so the output order of List::sort reveals the partition).
+// operator< compares value/16 only (so the output order of List::sort reveals the partition); Wide (24 bytes:
+// a heap cell and two derived words); Rec (PoolList only: records its constructor arguments).
 #include "vh.hpp"
 #include <pthread.h>
 #define private public
@@ -79,6 +80,24 @@ template<bool KEYED> struct ObjT
   bool operator!=(const ObjT& o) const { return *p != *o.p; }
   bool operator<(const ObjT& o) const { stk_probe(); return KEYED ? fdiv16(*p) < fdiv16(*o.p) : *p < *o.p; }
 };
+// Wide: three words (a heap cell and two numbers derived from the value).  An element size other than 4 and 8 bytes:
+// storage sized or strided by sizeof(T*) / sizeof(int) instead of sizeof(T) overlaps neighbours (ASan) or tears the
+// derived fields, which val() checks.
+struct Wide
+{
+  int* p; long a; long b;
+  void set(int v) { *p = v; a = (long)v * 3 + 1; b = ~(long)v; }
+  Wide() : p((int*)malloc(sizeof(int))) { set(0); ++g_live; }
+  Wide(int v) : p((int*)malloc(sizeof(int))) { set(v); ++g_live; }
+  Wide(const Wide& o) : p((int*)malloc(sizeof(int))) { *p = *o.p; a = o.a; b = o.b; ++g_live; }
+  ~Wide() { free(p); --g_live; }
+  Wide& operator=(const Wide& o) { *p = *o.p; a = o.a; b = o.b; return *this; }
+  bool sound() const { return a == (long)*p * 3 + 1 && b == ~(long)*p; }
+  bool operator==(const Wide& o) const { return *p == *o.p && a == o.a && b == o.b; }
+  bool operator!=(const Wide& o) const { return !(*this == o); }
+  bool operator<(const Wide& o) const { stk_probe(); return *p < *o.p; }
+};
+static inline int val(const Wide& o) { return o.sound() ? *o.p : -77777777; }
 // Rec: an element type with constructors of 0..7 arguments that record what they were given (in the
 // order of the parameters).  Its value as printed = arity + 8 * (a0 + 8 * (a1 + 8 * (...))), the
 // ctor_val of SeqSpec.v; the arguments are 0..7.  One pointer wide (PoolList item alignment); the
@@ -232,7 +251,13 @@ template<class C> static void dump_pub(const char* letter, int i, const C& l)
   for(typename C::Iterator it = l.begin(), end = l.end(); it != end && cnt < MAXWALK; ++it) ++cnt;
   int* fw = (int*)malloc(sizeof(int) * (cnt + 1));
   long k = 0;
-  for(typename C::Iterator it = l.begin(), end = l.end(); it != end && k < cnt; ++it, ++k) { fw[k] = val(*it); printf("%d ", fw[k]); }
+  const bool brief = cnt > 4096; // `#<hash> <first three> .. <last three>` (the drivers print the same)
+  unsigned h = 0;
+  for(typename C::Iterator it = l.begin(), end = l.end(); it != end && k < cnt; ++it, ++k) {
+    fw[k] = val(*it);
+    if(!brief) printf("%d ", fw[k]); else h = (h * 31u + (unsigned)fw[k]) & 0x7fffffffu;
+  }
+  if(brief) printf("#%u %d %d %d .. %d %d %d ", h, fw[0], fw[1], fw[2], fw[cnt - 3], fw[cnt - 2], fw[cnt - 1]);
   printf("]");
   // backwards from end() to begin(): must be the reverse
   bool ok = cnt < MAXWALK;
@@ -251,8 +276,13 @@ template<class C> static void dump_int(const char* letter, int i, const C& l)
 {
   Slots<C> s(l);
   printf("%s%d s ", letter, i);
+  const bool brief = l.size() > 4096; // the slot ids of the nodes as a hash (such cases are not followed by the node-level model)
+  unsigned long h = 0;
   long cnt = 0;
-  for(typename C::Item* it = l._begin.item; it != &l.endItem && cnt < MAXWALK; it = it->next, ++cnt) printf("%ld ", s.of(it));
+  for(typename C::Item* it = l._begin.item; it != &l.endItem && cnt < MAXWALK; it = it->next, ++cnt) {
+    if(!brief) printf("%ld ", s.of(it)); else h = h * 31u + (unsigned long)s.of(it);
+  }
+  if(brief) printf("#%lu ", h);
   printf("/ ");
   cnt = 0;
   for(typename C::Item* it = l.freeItem; it && cnt < MAXWALK; it = it->prev, ++cnt) printf("%ld ", s.of(it));
@@ -475,7 +505,13 @@ template<class T> struct ArrayCase
       long k = 0;
       const T* raw = a;
       bool same = true;
-      for(typename C::Iterator it = a.begin(), end = a.end(); it != end; ++it, ++k) { printf("%d ", val(*it)); if(&*it != raw + k) same = false; }
+      const bool brief = a.size() > 4096; // `#<hash> <first three> .. <last three>` (the drivers print the same)
+      unsigned h = 0;
+      for(typename C::Iterator it = a.begin(), end = a.end(); it != end; ++it, ++k) {
+        if(!brief) printf("%d ", val(*it)); else h = (h * 31u + (unsigned)val(*it)) & 0x7fffffffu;
+        if(&*it != raw + k) same = false;
+      }
+      if(brief) printf("#%u %d %d %d .. %d %d %d ", h, val(raw[0]), val(raw[1]), val(raw[2]), val(raw[k - 3]), val(raw[k - 2]), val(raw[k - 1]));
       printf(same && (usize)k == a.size() ? "]" : "] ptr BAD");
       printf(acc_ok(*v[i]) ? " acc ok" : " acc BAD");
     }
@@ -529,6 +565,16 @@ template<class T> struct ArrayCase
       free(buf);
       printf("-");
     }
+    else if(!strcmp(o, "appr")) { // append(buf, n) with buf = start, start + step, ...: n values
+      long st = atol(t.v[2]), n = t.n > 4 ? atol(t.v[3]) : 0, d = t.n > 4 ? atol(t.v[4]) : 0;
+      if(n < 0) n = 0;
+      T* buf = (T*)malloc(n ? sizeof(T) * n : 1);
+      for(long k = 0; k < n; ++k) new(buf + k) T((int)(st + k * d));
+      a->append(buf, (usize)n);
+      for(long k = 0; k < n; ++k) buf[k].~T();
+      free(buf);
+      printf("-");
+    }
     else if(!strcmp(o, "appo")) { // append(&a[off], n): the buffer is a range of the array's own storage
       long off = atol(t.v[2]), n = t.n > 3 ? atol(t.v[3]) : -1;
       if(off < 0 || n < 0 || (usize)(off + n) > a->size()) printf("skip");
@@ -576,6 +622,7 @@ static void begin(long, vh::Tok& t)
   g_stack_kb = (t.n > 4 && !strncmp(t.v[4], "stack=", 6)) ? atol(t.v[4] + 6) : 0;
   if(!strcmp(kind, "obj")) start_kind<ObjT<false> >(cont);
   else if(!strcmp(kind, "kv")) start_kind<ObjT<true> >(cont);
+  else if(!strcmp(kind, "wide")) start_kind<Wide>(cont);
   else if(!strcmp(kind, "rec")) PListCase<Rec>::start(); // the kind of the PoolList::append arities; PoolList only
   else start_kind<int>(cont);
 }
